@@ -177,6 +177,9 @@ def add(name, harness, **kw):
     kw.setdefault("fp_key", kw.get("defs", {}).get("VP_MODE"))
     if any(o.name == name for o in OBLIGATIONS):
         return  # already registered (the quick tier lists come first)
+    if kw.get("tier") == "thorough":
+        kw["timeout"] = 3000
+        kw.setdefault("mem_gb", 24)
     OBLIGATIONS.append(AutoObl(name, harness, **kw))
 
 
@@ -206,8 +209,7 @@ def dbiter_loops(n):
 
 for (n, fam, tier) in ((1, "**", "quick"), (2, "***", "quick"), (3, "ARR", "quick"), (3, "ARA", "quick"), (3, "AA", "quick"),
                        (4, "ARR", "quick"),
-                       (3, "***", "thorough"), (4, "ARA", "thorough"), (4, "***", "thorough"), (5, "ARR", "thorough"),
-                       (3, "ARRR", "thorough")):
+                       (3, "***", "thorough"), (4, "ARA", "thorough"), (5, "ARR", "thorough"), (3, "ARRR", "thorough")):
     d = {"VP_MODE": 0, "VP_N": n}
     d.update(fam_defs(fam))
     add("e.dbiter-ops-N%d-%s" % (n, fam.replace("*", "x")), "C07/dbiter.c", real=DBITER_REAL, include_real=["db_iter.c"],
@@ -215,7 +217,7 @@ for (n, fam, tier) in ((1, "**", "quick"), (2, "***", "quick"), (3, "ARR", "quic
         functions=DBITER_FUNCS,
         desc="db_iter.c over one sorted internal child: after every step valid/key/value == sorted-map cursor over the 'newest entry with seq<=S per user key, visible iff value' fold; never yields seq>S or a deletion; status()==child status; read sampling does not disturb",
         bounds="%d internal entries (1-byte symbolic user keys, symbolic 56-bit seq, symbolic type), symbolic snapshot S, %s" % (n, fam_text(fam)))
-for (n, tier) in ((2, "quick"), (3, "quick"), (4, "quick"), (5, "thorough")):
+for (n, tier) in ((2, "quick"), (3, "quick"), (4, "thorough"), (5, "thorough")):
     add("e.dbiter-scan-N%d" % n, "C07/dbiter.c", real=DBITER_REAL, include_real=["db_iter.c"],
         defs={"VP_MODE": 1, "VP_N": n}, kit=KIT_SLAB, unwind=11, unwindset=dbiter_loops(n),
         object_bits=10, tier=tier, functions=DBITER_FUNCS,
@@ -282,14 +284,15 @@ add_merger((1, 1, 1), "213", "ARR", "quick")
 add_merger((1, 2), None, "AR", "quick")
 add_merger((1, 2), None, "ARR", "thorough")
 add_merger((0, 2), "22", "ARR", "quick")
-for perm in interleavings((3, 2)):
+for perm in ("11122", "12121", "22111", "21212"):
     add_merger((3, 2), perm, "ARR", "thorough")
-for perm in interleavings((2, 2)):
+for perm in ("1212", "2112"):
     add_merger((2, 2), perm, "ARRR", "thorough")
-    add_merger((2, 2), perm, "***", "thorough")
-for perm in interleavings((1, 1, 1)) + ["112233", "123123", "321321", "132132"]:
-    add_merger((1, 1, 1) if len(perm) == 3 else (2, 2, 2), perm, "ARR", "thorough")
-add_merger((2, 2), None, "ARR", "thorough")
+add_merger((2, 2), "1212", "***", "thorough")
+for perm in ("123", "321"):
+    add_merger((1, 1, 1), perm, "ARR", "thorough")
+add_merger((2, 2, 2), "123123", "ARR", "thorough")
+add_merger((2, 2), None, "AR", "thorough")
 for (sizes, tier) in (((1, 1), "quick"), ((1, 2), "thorough"), ((2, 2), "thorough"), ((3, 2), "thorough"), ((2, 2, 2), "thorough")):
     add("c.merger-scan-dups-%s" % "x".join(str(x) for x in sizes), "C07/merger.c", real=UTIL_REAL, kit=KIT_SLAB,
         include_real=["table/merger.c"], defs=merger_defs(sizes, 1), unwind=sum(sizes) + 3, tier=tier,
@@ -390,18 +393,16 @@ def add_block_ops(keyset, lens, ri, fam, tier):
         bounds="%d entries, %s, 1-byte symbolic values, restart interval %d, symbolic seek target of 0..3 bytes, %s" % (len(lens), keys, ri, fam_text(fam)))
 
 
-for (keyset, n, ri, fam) in ((1, 3, 2, "AR"), (2, 3, 1, "AR"), (3, 3, 3, "AR"), (4, 3, 2, "AA"), (2, 3, 2, "AA"), (3, 2, 1, "AR")):
+for (keyset, n, ri, fam) in ((1, 3, 2, "AR"), (2, 3, 1, "AR"), (3, 3, 3, "AR"), (4, 2, 1, "AA"), (2, 2, 2, "AA"), (3, 2, 1, "AR")):
     add_block_ops(keyset, (0,) * n, ri, fam, "quick")
-for keyset in (1, 2, 3, 4):
-    for ri in (1, 2, 3):
-        for fam in ("AR", "AA", "**"):
-            add_block_ops(keyset, (0, 0, 0), ri, fam, "thorough")
-for (lens, ri, fam) in (((2, 2), 1, "**"), ((2, 2), 2, "**"), ((1, 2, 3), 2, "AR"), ((2, 2, 2), 1, "AR"), ((2, 2, 2), 3, "AR"),
-                        ((3, 3, 3), 2, "AR"), ((2,), 1, "**")):
+for (keyset, ri) in ((1, 1), (1, 3), (2, 2), (3, 1), (3, 2), (4, 3)):
+    add_block_ops(keyset, (0, 0, 0), ri, "**", "thorough")
+for (keyset, ri) in ((4, 2), (2, 2)):
+    add_block_ops(keyset, (0, 0, 0), ri, "AA", "thorough")
+for (lens, ri, fam) in (((2, 2), 1, "**"), ((2, 2), 2, "**"), ((2,), 1, "**"), ((1, 2, 3), 2, "AR"), ((2, 2, 2), 1, "AR")):
     add_block_ops(0, lens, ri, fam, "thorough")
 for (keyset, lens, ri, tier) in ((1, (0, 0, 0), 1, "quick"), (3, (0, 0, 0), 2, "quick"), (2, (0, 0, 0), 3, "quick"),
-                                 (0, (2, 2), 1, "thorough"), (0, (1, 2, 3), 2, "thorough"), (0, (2, 2, 2), 2, "thorough"),
-                                 (0, (3, 3, 3), 3, "thorough")):
+                                 (0, (2, 2), 1, "thorough"), (0, (1, 2, 3), 2, "thorough"), (0, (2, 2, 2), 2, "thorough")):
     if keyset:
         lens = KEYSETS[keyset][0][:len(lens)]
         name = "a.block-scan-S%d-N%d-R%d" % (keyset, len(lens), ri)
